@@ -431,7 +431,7 @@ package shaping
 //
 // Vertical orientation pass: same partition contract; every rune of an output run has the run's orientation.
 //@ opaque sidewaysRune(vo unicodedata.ScriptVerticalOrientation, r rune) bool
-//@ trusted unicodedata.ScriptVerticalOrientation.Orientation
+//@ trusted std:unicodedata.ScriptVerticalOrientation.Orientation
 //@   ensures [def] isSideways == sidewaysRune(sv, r)
 //@   modifies nothing
 //@ opaque scriptOrientation(s language.Script) unicodedata.ScriptVerticalOrientation
